@@ -27,13 +27,6 @@ Definition locus_sense (out : res collR) (f : pointR -> R) : Prop :=
     out = Ok [((ty, prm), 1%Z)] /\ f_T4 RS ty prm = Some g /\ 0 < k /\
     forall p, g p = k * f p.
 
-(* same, but the implicit function is a NEGATIVE multiple: same zero set,
-   senses exchanged *)
-Definition locus_flipped (out : res collR) (f : pointR -> R) : Prop :=
-  exists ty prm g k,
-    out = Ok [((ty, prm), 1%Z)] /\ f_T4 RS ty prm = Some g /\ k < 0 /\
-    forall p, g p = k * f p.
-
 Lemma locus_sense_regions out f :
   locus_sense out f ->
   exists c, out = Ok c /\
@@ -61,24 +54,6 @@ Proof.
   - exists ty, prm, g. repeat split; try assumption; rewrite Hf; apply (Hkf (f p)).
 Qed.
 
-Lemma locus_flipped_regions out f :
-  locus_flipped out f ->
-  exists c, out = Ok c /\
-    forall p, (neg_coll c p <-> 0 < f p) /\ (pos_coll c p <-> f p < 0).
-Proof.
-  intros (ty & prm & g & k & Hout & Hg & Hk & Hf).
-  exists [((ty, prm), 1%Z)]. split; [exact Hout|]. intros p.
-  split.
-  - split.
-    + intros H. inversion H as [|? ? (g' & Hg' & Hlt) _]; subst. cbn in Hg'.
-      rewrite Hg in Hg'. injection Hg' as <-. cbn in Hlt. rewrite Hf in Hlt. nra.
-    + intros H. constructor; [|constructor]. exists g. split; [exact Hg|].
-      cbn. rewrite Hf. nra.
-  - split.
-    + intros H. inversion H as [? ? (g' & Hg' & Hlt)|? ? H']; subst; [|inversion H'].
-      cbn in Hg'. rewrite Hg in Hg'. injection Hg' as <-. cbn in Hlt. rewrite Hf in Hlt. nra.
-    + intros H. constructor. exists g. split; [exact Hg|]. cbn. rewrite Hf. nra.
-Qed.
 
 (* ---------- tactics ---------- *)
 Lemma Reqb_refl x : Reqb x x = true. Proof. apply Reqb_true; reflexivity. Qed.
